@@ -206,7 +206,16 @@ void exec_c14(const Plan& p, Ctx& ctx) {
             std::optional<std::array<std::uint8_t, 32>> ka0, ka1, kb1;
             A.run([&](en::Node& n) { ka0 = n.session_key(kB); n.tick(); ka1 = n.session_key(kB); });
             B.run([&](en::Node& n) { n.tick(); kb1 = n.session_key(kA); });
+            // the two ends count their periods from instants a little apart (each from the moment it accepted the handshake): right after one
+            // end's boundary the other may still be in the previous period. Let both tick again until they agree; nothing is sent meanwhile.
+            for (int i = 0; i < 8 && ka1 && kb1 && *ka1 != *kb1; ++i) {
+                ctx.probe("rotate_waited_for_the_other_end");
+                sk::sleep_ns(700 * kMs);
+                A.run([&](en::Node& n) { n.tick(); ka1 = n.session_key(kB); });
+                B.run([&](en::Node& n) { n.tick(); kb1 = n.session_key(kA); });
+            }
             if (ka0 && ka1 && kb1 && *ka0 != *ka1 && *ka1 == *kb1) ctx.boundary("session_key_rotated_between_bursts");
+            else if (ka1 && kb1 && *ka1 != *kb1) { ctx.probe("rotate_left_the_ends_on_different_keys_not_judged"); reset_injected = true; }  // C39's subject; delivery is not judged from here on
             else ctx.probe("rotate_without_effect");
         } else if (op.k == "pause") {
             sk::sleep_ns(op.at(0) * kMs);
